@@ -168,7 +168,7 @@ func (w *fzWorld) send(fc fzCase, self *world.Keys) (string, net.Conn, error) {
 		return "", nil, err
 	}
 	local := raw.LocalAddr().String()
-	if fc.Raw != nil || fc.Class == "raw" {
+	if fc.Raw != nil || fc.Class == "raw" || fc.Class == "crafted-hello" {
 		_ = raw.SetDeadline(time.Now().Add(20 * time.Second))
 		_, _ = raw.Write(fc.Raw)
 		if tc, ok := raw.(*net.TCPConn); ok {
@@ -602,6 +602,15 @@ func (w *fzWorld) genCases(c *engine.Ctx, rng *rand.Rand) []fzCase {
 	for i, b := range raws {
 		out = append(out, fzCase{Class: "raw", Detail: fmt.Sprintf("#%d %d bytes", i, len(b)), Raw: append([]byte{}, b...), Config: w.cfg})
 	}
+	// structurally valid ClientHellos with fields and extensions left out, emptied or repeated
+	for _, it := range []struct {
+		what string
+		base []byte
+	}{{"fetch hello", hello}, {"auth hello", captureClientHello(ach)}, {"plain h2 hello", captureClientHello([][]byte{[]byte("h2")})}} {
+		for _, ch := range craftedHellos(it.base, it.what) {
+			out = append(out, fzCase{Class: "crafted-hello", Detail: ch.detail, Raw: ch.raw, Config: w.cfg})
+		}
+	}
 
 	// (e) connections dropped at every handshake stage, for fetch / auth / plain clients
 	for _, pr := range [][][]byte{fch, ach, {[]byte("h2")}} {
@@ -731,6 +740,7 @@ func runFuzzListen(c *engine.Ctx) engine.Result {
 	r.Require("class:signed-hostile", 10)
 	r.Require("class:signed-with-certpref", 10)
 	r.Require("class:odd-client-cert", 16)
+	r.Require("class:crafted-hello", 100)
 	r.Require("class:raw", 10)
 	r.Require("class:dropped", 10)
 	r.Require("closed_listener_reports_non_temporary", 4)
